@@ -184,7 +184,8 @@ FactorFFTPlan::FactorFFTPlan(int n)
 [[nodiscard]] arr_cmplx FactorFFTPlan::solve(const arr_cmplx& x) const {
     DSPLIB_ASSERT(x.size() == _n, "input vector size is not equal fft size");
     arr_cmplx r(x);   //TODO: remove copy
-    _facfft(_plan.get(), r.data(), _px.data(), _twiddle.data(), _n);
+    arr_cmplx px(_n);   //per-call scratch: solve() is const and a plan may be shared between threads
+    _facfft(_plan.get(), r.data(), px.data(), _twiddle.data(), _n);
     return r;
 }
 
